@@ -190,11 +190,42 @@ type verdict struct {
 	NonTri bool
 }
 
+// tablesFunc delivers brand-new table values (lookup list, GDEF, lookup order)
+// on every call: nothing the engine could have attached to the values used by
+// an earlier Context is visible to the next one.
+type tablesFunc func() (gtab.LookupList, *gdef.Table, []gtab.LookupIndex)
+
+// runFresh runs the calls on a new Context over new table values.
+func runFresh(mk tablesFunc, hist [][]G) []step {
+	ll, gd, lookups := mk()
+	return runHistory(ll, gd, lookups, hist)
+}
+
+// runSplit applies the lookups of the lookup order one by one, each on a new
+// Context over new tables.
+func runSplit(mk tablesFunc, in []G) step {
+	_, _, lookups := mk()
+	st := step{Out: in}
+	for _, li := range lookups {
+		ll, gd, _ := mk()
+		st = applyOnce(gtab.NewContext(ll, gd, []gtab.LookupIndex{li}), st.Out)
+		if st.Panic {
+			return st
+		}
+	}
+	return st
+}
+
 // oracle states C07 directly on the real code: no panic within the watchdog,
 // runes conserved, the stack empty after every call, the length bound, the
-// result on the reused context equal to the result on a fresh context, and a
-// second identical run equal to the first.
-func oracle(ll gtab.LookupList, gd *gdef.Table, lookups []gtab.LookupIndex, hist [][]G) (v verdict) {
+// result of EVERY call on the reused context equal (glyph ids, text, offsets,
+// advances, stack length) to the result of the same call on a new context
+// over newly built tables, the result of every call from the third on
+// unchanged when the earlier calls are made in another order, the result of
+// a call with several top-level lookups equal to the composition of one new
+// Context per lookup, and a second identical run equal to the first.
+func oracle(mk tablesFunc, hist [][]G) (v verdict) {
+	ll, gd, lookups := mk()
 	steps, ok := guarded(func() []step { return runHistory(ll, gd, lookups, hist) })
 	if !ok {
 		v.Impl = "hang"
@@ -243,21 +274,67 @@ func oracle(ll gtab.LookupList, gd *gdef.Table, lookups []gtab.LookupIndex, hist
 			fail("c07-length-bound", "call %d: %d glyphs out, bound %d", i, len(s.Out), bound)
 		}
 		// fresh context
-		fresh, ok := guarded(func() []step { return runHistory(ll, gd, lookups, hist[i:i+1]) })
+		fresh, ok := guarded(func() []step { return runFresh(mk, hist[i:i+1]) })
 		if !ok {
 			fail("c07-hang", "fresh Apply %d did not return", i)
 		} else if !sameStep(fresh[0], s) {
 			fail("c07-history-dependent", "call %d on the reused context: %s, on a fresh context: %s", i, obsSx([]step{s}), obsSx(fresh))
 		}
+		// the top-level lookups are applied one after the other: a Context
+		// per lookup (new tables each), fed with the previous result, must
+		// give what the one Context with the whole lookup order gives
+		if len(lookups) >= 2 {
+			split, ok := guarded(func() step { return runSplit(mk, hist[i]) })
+			if !ok {
+				fail("c07-hang", "lookup-by-lookup Apply %d did not return", i)
+			} else if !sameStep(split, s) {
+				fail("c07-lookup-split", "call %d: one Context with lookups %v gives %s, one new Context per lookup gives %s", i, lookups, obsSx([]step{s}), obsSx([]step{split}))
+			}
+		}
+		// order independence: the earlier calls in another order (reversed;
+		// for three and more also rotated) must not change this call
+		if i >= 2 {
+			for _, perm := range earlierOrders(i) {
+				h2 := make([][]G, 0, i+1)
+				for _, j := range perm {
+					h2 = append(h2, hist[j])
+				}
+				h2 = append(h2, hist[i])
+				other, ok := guarded(func() []step { return runFresh(mk, h2) })
+				if !ok {
+					fail("c07-hang", "permuted history before call %d did not return", i)
+				} else if len(other) != i+1 || !sameStep(other[i], s) {
+					fail("c07-order-dependent", "call %d after the earlier calls in order %v gives %s, in the original order %s", i, perm, obsSx(other[len(other)-1:]), obsSx([]step{s}))
+				}
+			}
+		}
 	}
 	// repeated run
-	again, ok := guarded(func() []step { return runHistory(ll, gd, lookups, hist) })
+	again, ok := guarded(func() []step { return runFresh(mk, hist) })
 	if !ok {
 		fail("c07-hang", "second run did not return")
 	} else if obsSx(again) != v.Impl {
 		fail("c07-not-repeatable", "second run gives %s", obsSx(again))
 	}
 	return v
+}
+
+// earlierOrders returns the orders in which the i calls before call i are
+// replayed by the order-independence clause: reversed and (i >= 3) rotated.
+func earlierOrders(i int) [][]int {
+	rev := make([]int, i)
+	for j := range rev {
+		rev[j] = i - 1 - j
+	}
+	out := [][]int{rev}
+	if i >= 3 {
+		rot := make([]int, i)
+		for j := range rot {
+			rot[j] = (j + 1) % i
+		}
+		out = append(out, rot)
+	}
+	return out
 }
 
 // labels describing the tables (distribution in the evidence)
@@ -313,8 +390,7 @@ func (c *Case) labels() []string {
 
 // runStruct evaluates a structured case.
 func runStruct(c *Case) verdict {
-	ll, gd, lookups := c.Gtab()
-	v := oracle(ll, gd, lookups, c.Hist)
+	v := oracle(c.Gtab, c.Hist)
 	v.Labels = append(v.Labels, c.labels()...)
 	return v
 }
@@ -365,6 +441,19 @@ func readTables(tp string, data []byte) (info *gtab.Info, err error) {
 	return gtab.Read(bytes.NewReader(data), t)
 }
 
+// readTablesFunc: the lookup list is read again from the bytes for every new
+// context (the caller has checked that the bytes are accepted).
+func readTablesFunc(tp string, data []byte, c *Case) tablesFunc {
+	return func() (gtab.LookupList, *gdef.Table, []gtab.LookupIndex) {
+		_, gd, lookups := c.Gtab()
+		info, err := readTables(tp, data)
+		if err != nil || info == nil {
+			return nil, gd, lookups
+		}
+		return info.LookupList, gd, lookups
+	}
+}
+
 // RunCase re-executes one case line.
 func RunCase(line string) (impl, fail, sig string, err error) {
 	items, err := vlib.Parse(line)
@@ -406,6 +495,8 @@ func RunCase(line string) (impl, fail, sig string, err error) {
 			return shapeImpl(c), "", "", nil
 		case "!layout":
 			return runLayoutLine(items)
+		case "!layout2":
+			return runLayoutLine2(items)
 		case "!twin":
 			return runTwinLine(items)
 		case "!read":
@@ -425,8 +516,8 @@ func RunCase(line string) (impl, fail, sig string, err error) {
 			if rerr != nil {
 				return "readerr", "", "", nil
 			}
-			_, gd, lookups := c.Gtab()
-			v := oracle(info.LookupList, gd, lookups, c.Hist)
+			_ = info
+			v := oracle(readTablesFunc(tp, data, c), c.Hist)
 			return v.Impl, v.Fail, v.Sig, nil
 		}
 	}
